@@ -582,17 +582,23 @@ func c10MsgTable(i int) c10Msg {
 // c10MsgBody builds the symbolic body for message i: fixed part plus e
 // extension bytes (and for Shutdown an address of a <= 4 bytes, for
 // ChannelReestablish also the short and truncated forms).
-func c10MsgBody(i int, spec c10Msg, emax int) (body []byte, tlvOff int) {
+func c10MsgBody(i int, spec c10Msg, emax int, part int) (body []byte, tlvOff int) {
 	// e = number of extension bytes, 0..emax. Bands exist so that the long
 	// extensions can run as separate processes: band 0: e = 0..emax-3,
 	// band k = 1..3: e = emax-3+k.
 	var e int
 	if emax < 3 {
 		e = vChoice("extra", emax+1)
-	} else if band := vChoice("eband", 4); band == 0 {
-		e = vChoice("extra", emax-2)
 	} else {
-		e = emax - 3 + band
+		band := vChoice("eband", 4)
+		if part >= 0 && c10QuickPart(i, band) != part {
+			vAssume(false) // belongs to another process
+		}
+		if band == 0 {
+			e = vChoice("extra", emax-2)
+		} else {
+			e = emax - 3 + band
+		}
 	}
 	n := spec.fixed + e
 	tlvOff = spec.fixed
@@ -655,11 +661,31 @@ const (
 	c10ExtraDeep  = 8
 )
 
+// c10QuickPart groups (message, extension band) pairs into five parts of
+// similar cost so that the quick tier needs only five processes.
+func c10QuickPart(msg, band int) int {
+	switch {
+	case msg == 3 && band == 3:
+		return 0
+	case msg == 2 && band == 3, msg == 0, msg == 2 && band <= 1:
+		return 1
+	case msg == 4, msg == 1:
+		return 2
+	case msg == 5, msg == 2:
+		return 3
+	}
+	return 4 // ChannelReestablish bands 0-2
+}
+
 func c10MsgBytes(emax int) {
 	c10Config()
+	part := -1
+	if emax == c10ExtraQuick {
+		part = vChoice("part", 5)
+	}
 	i := vChoice("msg", c10NumMsgs)
 	spec := c10MsgTable(i)
-	body, tlvOff := c10MsgBody(i, spec, emax)
+	body, tlvOff := c10MsgBody(i, spec, emax, part)
 	tlvOK, recs := true, []c10TLVRec(nil)
 	if spec.tlv && i != 3 {
 		tlvOK, recs = c10RefTLV(body[tlvOff:])
@@ -707,7 +733,7 @@ func VerifC10MsgUnknownKept() {
 	which := vChoice("msg", 3)
 	i := []int{2, 3, 5}[which]
 	spec := c10MsgTable(i)
-	body, tlvOff := c10MsgBody(i, spec, 3)
+	body, tlvOff := c10MsgBody(i, spec, 3, -1)
 	vAssume(len(body) >= spec.fixed)
 	_, recs := c10RefTLV(body[tlvOff:])
 	in := append([]byte{}, body...)
